@@ -61,8 +61,14 @@ pub fn check_edges<K: Kmer, P: PayKind>(
             } else {
                 node.r_edges().into_iter().map(link_of).collect()
             };
-            if real_edges != via_named {
-                return Err(format!("node {}: edges({}) != l_edges/r_edges", u, dir));
+            {
+                // the order in which edges are listed is not part of the property: compare as multisets
+                let (mut a, mut b) = (real_edges.clone(), via_named.clone());
+                a.sort();
+                b.sort();
+                if a != b {
+                    return Err(format!("node {}: edges({}) and l_edges/r_edges list different edges", u, dir));
+                }
             }
             let mut expected_list: Vec<Link> = Vec::new();
             for b in model::ext_bases(gm.nodes[u].exts, dir) {
@@ -138,11 +144,16 @@ pub fn check_edges<K: Kmer, P: PayKind>(
                     }
                 }
             }
-            if expected_list != real_edges {
-                return Err(format!(
-                    "node {} side {}: edges() = {:?} but resolving the extension bits in base order gives {:?}",
-                    u, dir, real_edges, expected_list
-                ));
+            {
+                let (mut a, mut b) = (expected_list.clone(), real_edges.clone());
+                a.sort();
+                b.sort();
+                if a != b {
+                    return Err(format!(
+                        "node {} side {}: edges() = {:?} but resolving the extension bits one by one gives {:?}",
+                        u, dir, real_edges, expected_list
+                    ));
+                }
             }
         }
     }
